@@ -92,6 +92,12 @@ def shard_worker(job):
     """Runs in a child process: one Hypothesis campaign (plus continuation rounds after a failure)."""
     prop, pname, shard, shard_seed, n_examples, tier, shrink_budget = job
     try:
+        # LAPACK/BLAS print parameter complaints straight to fd 2 when handed NaN data; results travel back by value
+        try:
+            if not os.environ.get("VERIF_KEEP_STDERR"):
+                os.dup2(os.open(os.devnull, os.O_WRONLY), 2)
+        except OSError:
+            pass
         ensure_deps()
         import hypothesis
         from hypothesis import given, settings, seed, HealthCheck, Phase, Verbosity
@@ -177,6 +183,57 @@ def shard_worker(job):
                 "profile": pname, "shard": shard}
 
 
+def enum_worker(job):
+    """Runs in a child process: a slice of an exhaustively enumerated case list (no Hypothesis, nothing to shrink)."""
+    prop, pname, shard, cases = job
+    try:
+        try:
+            if not os.environ.get("VERIF_KEEP_STDERR"):
+                os.dup2(os.open(os.devnull, os.O_WRONLY), 2)
+        except OSError:
+            pass
+        ensure_deps()
+        mod = load_prop(prop)
+        prof = mod.PROFILES[pname]
+        known = [e for e in core.load_known(prop) if e.kind == "known"]
+        stats = new_stats()
+        violations = []
+        seen = set()
+        for case in cases:
+            try:
+                res = core.run_with_timeout(prof.run, case, prof.timeout)
+            except CaseTimeout:
+                stats["inconclusive"] += 1
+                stats["evaluations"] += 1
+                continue
+            except Exception:
+                stats["harness_errors"].append(traceback.format_exc()[-1500:])
+                stats["evaluations"] += 1
+                continue
+            account(stats, case, res)
+            unlisted = []
+            for clause, detail in res.failures:
+                k = known_match(mod, known, case, clause, detail)
+                if k:
+                    stats["known_hits"][k] += 1
+                else:
+                    unlisted.append((clause, detail))
+            if unlisted:
+                if unlisted[0][0] in seen:
+                    stats["excluded_hits"][unlisted[0][0]] += 1
+                else:
+                    seen.add(unlisted[0][0])
+                    violations.append({"case": case, "failures": unlisted, "shard": shard, "profile": pname})
+        stats["nontrivial"] = list(stats["nontrivial"])
+        stats["sample_sigs"] = None
+        for k in ("classes", "counts", "known_hits", "excluded_hits"):
+            stats[k] = dict(stats[k])
+        return {"stats": stats, "violations": violations, "profile": pname, "shard": shard}
+    except BaseException as e:
+        return {"fatal": "".join(traceback.format_exception(type(e), e, e.__traceback__))[-3000:],
+                "profile": pname, "shard": shard}
+
+
 # ----------------------------------------------------------------------------------------------
 def evaluate_single(mod, pname, case, known):
     """Run one case outside Hypothesis. Returns (unlisted failures, known keys hit, result)."""
@@ -244,7 +301,7 @@ def run_check(prop, tier, seed_value, examples=None, only_profile=None, workers=
     jobs = []
     prof_budget = {}
     for pname, prof in mod.PROFILES.items():
-        if only_profile and pname != only_profile:
+        if (only_profile and pname != only_profile) or prof.strategy is None:
             continue
         n_total = examples if examples is not None else (prof.quick if tier == "quick" else prof.thorough)
         if n_total <= 0:
@@ -256,11 +313,23 @@ def run_check(prop, tier, seed_value, examples=None, only_profile=None, workers=
         for i in range(shards):
             jobs.append((prop, pname, i, core.hash32(seed_value, prop, pname, i), per[i], tier, shrink_budget))
     nproc = workers or min(16, os.cpu_count() or 1)
+    enum_jobs = []
+    enumerated = {}
+    for pname, prof in mod.PROFILES.items():
+        if prof.enumerate is None or (only_profile and pname != only_profile) or examples is not None and examples <= 0:
+            continue
+        lst = prof.enumerate(tier)
+        enumerated[pname] = len(lst)
+        for i in range(16):
+            part = lst[i::16]
+            if part:
+                enum_jobs.append((prop, pname, "enum%d" % i, part))
     results = []
-    if jobs:
+    if jobs or enum_jobs:
         ctx = multiprocessing.get_context("spawn")
         with ProcessPoolExecutor(max_workers=nproc, mp_context=ctx) as ex:
-            results = list(ex.map(shard_worker, jobs))
+            futs = [ex.submit(enum_worker, j) for j in enum_jobs] + [ex.submit(shard_worker, j) for j in jobs]
+            results = [f.result() for f in futs]
 
     merged = {}
     found = []
@@ -335,6 +404,8 @@ def run_check(prop, tier, seed_value, examples=None, only_profile=None, workers=
         "inconclusive": int(inconclusive), "regression_replays": reg_run, "profiles": per_profile,
         "shards": len(jobs), "repo_commit": commit,
     }
+    if enumerated:
+        coverage["enumerated_exhaustively"] = enumerated
     extra = getattr(mod, "coverage_extra", None)
     if extra:
         coverage.update(extra(tier, merged))
